@@ -552,6 +552,81 @@ fn parser_on_corrupt(out: &mut Out, rng: &mut Prng) {
     out.case(&format!("c15.parse {} usat 0 {} g/u;g/s;g/at", bo_name(bo), hex(&buf)), &obs.join(" ; "), true);
 }
 
+/// A get that fails INSIDE the decoder (after the signature matched and bytes were read) leaves the parser exactly where it
+/// was: asking again gives the same error again, the dynamic get gives its error twice as well, and everything equals what
+/// a fresh parser brought to the same position answers.
+fn failed_get_is_repeatable(out: &mut Out, rng: &mut Prng) {
+    use rustbus::message_builder::MarshalledMessageBody;
+    let bo = *rng.pick(&ORDERS);
+    let u = |v: u32| if bo == rustbus::ByteOrder::LittleEndian { v.to_le_bytes() } else { v.to_be_bytes() };
+    // (signature of the bad value, its bytes starting at offset 4: behind the leading u32; structs are padded to 8 below)
+    let mut bads: Vec<(&str, Vec<u8>)> = Vec::new();
+    bads.push(("b", u(2).to_vec()));
+    bads.push(("(ub)", [u(7), u(2)].concat()));
+    bads.push(("(uub)", [u(7), u(8), u(3)].concat()));
+    bads.push(("s", [&u(3)[..], b"abc\x01"].concat()));
+    bads.push(("ab", [u(8), u(1), u(2)].concat()));
+    bads.push(("a(ub)", [u(16), u(1), u(1), u(1), u(5)].concat()));
+    bads.push(("h", u(5).to_vec()));
+    bads.push(("(uh)", [u(7), u(5)].concat()));
+    for (sig, bad) in bads {
+        // u32, padding to 8, the bad value, padding to 4, u32
+        let mut buf = u(0x11223344).to_vec();
+        if sig.starts_with('(') {
+            buf.extend_from_slice(&[0, 0, 0, 0]);
+        }
+        buf.extend_from_slice(&bad);
+        while buf.len() % 4 != 0 {
+            buf.push(0);
+        }
+        buf.extend_from_slice(&u(0x55667788));
+        let full_sig = format!("u{}u", sig);
+        let body = MarshalledMessageBody::from_parts(buf.clone(), 0, vec![], full_sig.clone(), bo);
+        macro_rules! probe {
+            ($t:ty) => {{
+                let show = |r: Result<$t, UnmarshalError>| match r {
+                    Ok(_) => "ok".to_string(),
+                    Err(e) => format!("err:{}", err_name(&e)),
+                };
+                let mut fresh = body.parser();
+                let _ = fresh.get::<u32>();
+                let r0 = show(fresh.get::<$t>());
+                let mut p = body.parser();
+                let _ = p.get::<u32>();
+                let r1 = show(p.get::<$t>());
+                let r2 = show(p.get::<$t>());
+                let d1 = p.get_param().map(|_| ()).map_err(|e| err_name(&e));
+                let d2 = p.get_param().map(|_| ()).map_err(|e| err_name(&e));
+                let r3 = show(p.get::<$t>());
+                let mut fresh2 = body.parser();
+                let _ = fresh2.get::<u32>();
+                let d0 = fresh2.get_param().map(|_| ()).map_err(|e| err_name(&e));
+                let tag = format!("{} body {} {}", bo_name(bo), full_sig, hex(&buf));
+                if r0 == "ok" {
+                    out.violation("failed-get", &format!("the probe value decodes ({}): not a failing get", tag));
+                }
+                if !(r1 == r0 && r2 == r0 && r3 == r0) {
+                    out.violation("failed-get", &format!("a get that failed inside the decoder is not repeatable: fresh parser {}, then {} / {} / after two dynamic gets {} ({})", r0, r1, r2, r3, tag));
+                }
+                if !(d1 == d0 && d2 == d0) {
+                    out.violation("failed-get", &format!("get_param after a failed get: fresh parser {:?}, then {:?} / {:?} ({})", d0, d1, d2, tag));
+                }
+                out.hit("failed_get_repeatable");
+            }};
+        }
+        match sig {
+            "b" => probe!(bool),
+            "(ub)" => probe!((u32, bool)),
+            "(uub)" => probe!((u32, u32, bool)),
+            "s" => probe!(String),
+            "ab" => probe!(Vec<bool>),
+            "a(ub)" => probe!(Vec<(u32, bool)>),
+            "h" => probe!(UnixFd),
+            _ => probe!((u32, UnixFd)),
+        }
+    }
+}
+
 pub fn run(cfg: &Cfg) {
     std::panic::set_hook(Box::new(|_| {}));
     let mut out = Out::new(&cfg.outdir);
@@ -572,6 +647,9 @@ pub fn run(cfg: &Cfg) {
     }
     for _ in 0..n {
         parser_on_corrupt(&mut out, &mut rng);
+    }
+    for _ in 0..4 {
+        failed_get_is_repeatable(&mut out, &mut rng);
     }
     let _ = ByteOrder::LittleEndian;
     out.finish(
